@@ -2632,6 +2632,8 @@ class VM:
             # A built-in run as a callback executes no instruction of its own; it counts
             # as a step, so that built-ins driving built-ins stay under the limits
             self._check_limits()
+            if _verif_hook is not None:
+                _verif_hook(self, "native", None, None, None)
             return self._run_callback(callback, args, this_val)
         if self.native_depth >= MAX_NATIVE_DEPTH:
             raise MemoryLimitError("Maximum call stack size exceeded")
